@@ -27,7 +27,7 @@ SHARD_TIMEOUT = {"quick": 600, "thorough": 3000}
 def plan(tier, seed):
     if tier == "quick":
         return [{"tier": tier, "seed": seed, "shard": i, "n": 2, "subprocess": True} for i in range(12)]
-    return [{"tier": tier, "seed": seed, "shard": i, "n": 40, "subprocess": True} for i in range(32)]
+    return [{"tier": tier, "seed": seed, "shard": i, "n": 140, "subprocess": True} for i in range(32)]
 
 
 class Attack(object):
